@@ -10,6 +10,10 @@ from __future__ import annotations
 
 import asyncio
 import json
+import warnings
+
+# handlers that hand back a coroutine they never await are part of the "returns nonsense" alphabet
+warnings.filterwarnings("ignore", category=RuntimeWarning, message=r"coroutine .* was never awaited")
 
 _LOOP = None
 _SERVER = None
@@ -120,6 +124,147 @@ CUSTOM = {
 }
 
 
+# ---- "a handler raises": one handler per SHAPE of exception ---------------------------------------
+# (the text of the exception is what the dispatcher formats into its log line and error message)
+
+
+class UnprintableError(Exception):
+    def __str__(self):
+        raise RuntimeError("this exception has no text")
+
+
+class UnprintableRecursive(Exception):
+    def __str__(self):
+        raise UnprintableRecursive()
+
+    __repr__ = __str__
+
+
+class EmptyStrError(Exception):
+    def __init__(self, *a):
+        super().__init__("something")
+
+    def __str__(self):
+        return ""
+
+
+class NonStrStrError(Exception):
+    def __str__(self):
+        return 5  # str() then raises TypeError
+
+
+def _chained():
+    try:
+        raise ValueError("")
+    except ValueError as inner:
+        raise RuntimeError("outer\nsecond line") from inner
+
+
+def _assert():
+    assert False
+
+
+def _pydantic_validation_error():
+    from chuk_mcp.protocol.messages.json_rpc_message import JSONRPCError
+
+    JSONRPCError(jsonrpc="2.0", id=None, error={"code": 1, "message": "m"})  # raises a multi-line ValidationError
+    raise AssertionError("the envelope accepted a null id")
+
+
+def _unicode_decode():
+    b"\xff\xfe".decode("utf-8")
+
+
+def _raise(exc):
+    def f():
+        raise exc() if callable(exc) else exc
+    return f
+
+
+# shape -> zero-argument function that raises
+RAISERS = {
+    "plain": _raise(lambda: RuntimeError("boom")),
+    "empty": _raise(lambda: ValueError("")),
+    "noargs": _raise(lambda: KeyError()),
+    "bare-exception": _raise(lambda: Exception()),
+    "assert": _assert,
+    "timeout": _raise(lambda: asyncio.TimeoutError()),
+    "stop-async-iteration": _raise(lambda: StopAsyncIteration()),
+    "stop-iteration": _raise(lambda: StopIteration(3)),
+    "newline-only": _raise(lambda: ValueError("\n")),
+    "crlf-only": _raise(lambda: ValueError("\r\n\r\n")),
+    "multiline": _raise(lambda: ValueError("first line\nsecond line\r\nthird")),
+    "leading-newline": _raise(lambda: ValueError("\nsecond line only")),
+    "nonascii-control": _raise(lambda: RuntimeError("Ünï ид \x00\x1b[31m\u2028\u2029\x85 \U0001f600")),
+    "lone-surrogate": _raise(lambda: RuntimeError("bad \ud800 surrogate")),
+    "long": _raise(lambda: RuntimeError("x" * 100000)),
+    "nonstring-args": _raise(lambda: ValueError(5, b"\xff", object(), None)),
+    "int-arg": _raise(lambda: KeyError(0)),
+    "empty-str-method": _raise(lambda: EmptyStrError()),
+    "str-returns-nonstring": _raise(lambda: NonStrStrError()),
+    "chained": _chained,
+    "exception-group": _raise(lambda: ExceptionGroup("", [ValueError(""), KeyError()])),
+    "pydantic-validation": _pydantic_validation_error,
+    "unicode-decode": _unicode_decode,
+    "os-error": _raise(lambda: FileNotFoundError(2, "", "")),
+    "unprintable": _raise(lambda: UnprintableError()),
+    "unprintable-recursive": _raise(lambda: UnprintableRecursive()),
+}
+# an exception object whose own text cannot be produced; see props/c08.py (DEMAND_UNPRINTABLE)
+UNPRINTABLE = {"str-returns-nonstring", "unprintable", "unprintable-recursive"}
+
+
+def _tool_raising(f):
+    async def tool(text="d"):
+        f()
+    return tool
+
+
+def _resource_raising(f):
+    async def res():
+        f()
+    return res
+
+
+for _shape, _f in RAISERS.items():
+    TOOLS["raise/" + _shape] = (_tool_raising(_f), "raises")
+    RESOURCES["file:///raise/" + _shape] = (_resource_raising(_f), "raises")
+    CUSTOM["raise/" + _shape] = "raises"
+# raising handlers registered under standard notification names
+CUSTOM["notifications/message"] = "raises"          # empty text
+CUSTOM["notifications/roots/list_changed"] = "raises"  # multi-line text
+NOTIFICATION_RAISERS = {"notifications/message": "empty", "notifications/roots/list_changed": "pydantic-validation"}
+
+# ---- custom handlers that hand something back whatever the message is ----------------------------
+# behaviour classes: acks = a response of the handler's own making (+ maybe a session id), echoes = legacy envelope
+# built from message.id (None for a notification), junk = first element is not an envelope at all
+CUSTOM.update({
+    "notifications/progress": "acks",            # acknowledges with an id taken from the params
+    "ack/params": "acks", "ack/foreign-sid": "acksSid", "ack/sid-only": "silentSid",
+    "notifications/prompts/list_changed": "silentSid",
+    "notifications/resources/updated": "junk",   # a dict as first element
+    "ack/dict": "junk", "ack/str": "junk", "ack/int": "junk", "ack/true": "junk", "ack/awaitable-first": "junk",
+    "ack/legacy": "echoes", "notifications/tools/list_changed": "echoes",
+    "answers/sync-returning-coroutine": "answers",
+    "nonsense/returns-coroutine": "nonsense", "nonsense/async-generator": "nonsense", "nonsense/returns-future": "nonsense",
+})
+# what the Lean model is told (the model has no "junk": for a notification it is one more handler that
+# hands something back; requests to such handlers are outside the statements and are not sent to the model)
+MODEL_CBEH = {"junk": "acks", "silentSid": "silent"}
+UNFAITHFUL_FOR_MODEL = {"acks", "acksSid", "junk"}
+UNFAITHFUL = {"silent", "silentSid", "acks", "acksSid", "junk"}
+
+
+def raise_shape(kind, name):
+    """shape of the exception the addressed handler raises (kind: custom|tool|resource), or None"""
+    if kind == "custom" and name in NOTIFICATION_RAISERS:
+        return NOTIFICATION_RAISERS[name]
+    prefix = {"custom": "raise/", "tool": "raise/", "resource": "file:///raise/"}[kind]
+    if isinstance(name, str) and name.startswith(prefix) and name[len(prefix):] in RAISERS:
+        return name[len(prefix):]
+    return None
+
+
 def build_server():
     from chuk_mcp.server.server import MCPServer
 
@@ -154,11 +299,78 @@ def build_server():
     def c_sync(message, session_id):
         return None, None
 
-    for meth, fn in {
+    def raising(f):
+        async def h(message, session_id):
+            f()
+        return h
+
+    async def c_ack_params(message, session_id):
+        params = getattr(message, "params", None) or {}
+        token = params.get("requestId", params.get("progressToken", "ack"))
+        return ph.create_response(token if isinstance(token, (int, str)) and not isinstance(token, bool) else "ack", {"acknowledged": True}), None
+
+    async def c_ack_foreign_sid(message, session_id):
+        return ph.create_response("someone-else", {}), "sid-from-handler"
+
+    async def c_sid_only(message, session_id):
+        return None, "sid-from-handler"
+
+    async def c_dict(message, session_id):
+        return {"jsonrpc": "2.0", "id": "d", "result": {}}, None
+
+    async def c_str(message, session_id):
+        return "ok", None
+
+    async def c_42(message, session_id):
+        return 42, None
+
+    async def c_true(message, session_id):
+        return True, None
+
+    async def _inner():
+        return None
+
+    async def c_awaitable_first(message, session_id):
+        return _inner(), None
+
+    async def c_legacy(message, session_id):
+        from chuk_mcp.protocol.messages.json_rpc_message import JSONRPCMessage as Legacy
+
+        return Legacy.create_response(getattr(message, "id", None), {"legacy": True}), None
+
+    def c_sync_coroutine(message, session_id):
+        return c_answers(message, session_id)
+
+    async def c_returns_coroutine(message, session_id):
+        return c_answers(message, session_id)
+
+    async def c_async_generator(message, session_id):
+        yield None, None
+
+    async def c_returns_future(message, session_id):
+        return asyncio.ensure_future(_inner(), loop=_loop())
+
+    table = {
         "custom/answers": c_answers, "custom/silent": c_silent, "notifications/custom": c_silent,
         "custom/raises": c_raises, "custom/none": c_none, "custom/int": c_int, "custom/triple": c_triple,
         "custom/single": c_single, "custom/sync": c_sync,
-    }.items():
+        "notifications/progress": c_ack_params, "ack/params": c_ack_params, "ack/foreign-sid": c_ack_foreign_sid,
+        "ack/sid-only": c_sid_only, "notifications/prompts/list_changed": c_sid_only,
+        "notifications/resources/updated": c_dict, "ack/dict": c_dict, "ack/str": c_str, "ack/int": c_42,
+        "ack/true": c_true, "ack/awaitable-first": c_awaitable_first,
+        "ack/legacy": c_legacy, "notifications/tools/list_changed": c_legacy,
+        "answers/sync-returning-coroutine": c_sync_coroutine,
+        "nonsense/returns-coroutine": c_returns_coroutine, "nonsense/async-generator": c_async_generator,
+        "nonsense/returns-future": c_returns_future,
+    }
+    for shape, f in RAISERS.items():
+        table["raise/" + shape] = raising(f)
+    for meth, shape in NOTIFICATION_RAISERS.items():
+        table[meth] = raising(RAISERS[shape])
+    missing = set(CUSTOM) - set(table)
+    if missing:
+        raise RuntimeError(f"harness: no python handler for custom methods {sorted(missing)}")
+    for meth, fn in table.items():
         ph.register_method(meth, fn)
     return srv
 
@@ -258,7 +470,7 @@ def args_ok(params):
 SERVER_SPEC = {
     "tools": {k: v[1] for k, v in TOOLS.items()},
     "resources": {k: v[1] for k, v in RESOURCES.items()},
-    "custom": dict(CUSTOM),
+    "custom": {k: MODEL_CBEH.get(v, v) for k, v in CUSTOM.items()},
     "nextSid": "sid",
 }
 
@@ -274,6 +486,8 @@ def model_line(case, obs):
     else:
         idj = {"s": sid}
     params = case["msg"].get("params")
+    if sid is not None and CUSTOM.get(obs.get("seen_method")) in UNFAITHFUL_FOR_MODEL:
+        return None  # a request to a handler that answers with a response of its own making: outside the statements
     return {
         "m": "dispatch", "server": SERVER_SPEC,
         "msg": {"id": idj, "method": obs.get("seen_method"), "name": _key(params, "name"), "uri": _key(params, "uri"),
